@@ -723,6 +723,23 @@ def scenario_restart_equiv(rng, props, fails, stats):
             if nxt.hess_inv.sk.shape[0] > mc2:
                 fails.append(("C06", "restart with reduced maxcor keeps more than maxcor pairs"))
         chain = nxt
+    # C07: the same continuation from the STATE kept by the callback at iteration k (a crash checkpoint; its report
+    # fields are those of a running solver), not only from a returned result
+    if k in by_nit and (k + 1) in by_nit:
+        st = copy.deepcopy(by_nit[k][1])
+        nx, exc = run_once(p, dict(kw, x0=np.array(st.x, copy=True), checkpoint=st, maxiter=k + 1), None)
+        if exc is not None:
+            fails.append(("C07", f"restart from the callback state of iteration {k} raised {type(exc).__name__}: {exc}"))
+        elif nx.nit == k + 1:
+            ref_x, ref_s = by_nit[k + 1]
+            err = np.max(np.abs(nx.x - ref_x)) / max(1.0, np.max(np.abs(ref_x)))
+            if err > 1e-7:
+                fails.append(("C07", f"iterate {k + 1} after a restart from the callback state of iteration {k} differs "
+                                     f"from the uninterrupted run by {err:.2e} (relative){rejected_sig(k)}"))
+            elif (nx.nfev, nx.njev) != (ref_s.nfev, ref_s.njev):
+                fails.append(("C07", f"counters after a restart from the callback state of iteration {k} differ from the "
+                                     f"uninterrupted run: {(nx.nfev, nx.njev)} vs {(ref_s.nfev, ref_s.njev)}"
+                                     f"{rejected_sig(k)}"))
     return describe(p, kw)
 
 
